@@ -112,3 +112,58 @@ def updates_have_rows(prog, cg, eff, chk, rid):
     if writers < 4:
         raise AnalysisBroken('row-guarantee rule: the writers of the secondary tables were not found (%d)' % writers)
     return n
+
+
+CHAINS = {'playlist': ('nextlistid', 'parentlistid'), 'playlistentity': ('nextentityid', 'listid')}
+
+
+def chain_listings_complete(prog, cg, eff, chk, rid):
+    """The 2.x sibling and entry orders are linked lists inside the table (nextListId / nextEntityId) that the
+    library walks from the tail.  A statement that fetches the rows of one chain for that walk (a SELECT that
+    yields the next-pointer, in a function returning a sequence) therefore restricts the rows by the group key
+    alone (parentListId / listId): any further predicate removes a link, and every row in front of the removed
+    one is lost from the listing."""
+    n = 0
+    for f in prog.functions.values():
+        if f.body is None or f.is_pattern or not prog.in_repo(f.file) or '/v2/' not in (f.file or ''):
+            continue
+        ret = (f.type or '').split('(')[0]
+        if not re.search(r'\b(list|vector|deque)\s*<', ret):
+            continue
+        for s_ in eff.sites(f):
+            st = s_.stored_in
+            if st is None or st.kind != 'select' or st.select is None:
+                continue
+            t = (st.table or '').lower()
+            if t not in CHAINS or len(st.select.tables) != 1:
+                continue
+            nxt, group = CHAINS[t]
+            outs = []
+            for e, alias in st.select.items:
+                cr = e.column_ref()
+                if cr:
+                    outs.append(cr[1].lower())
+            if nxt not in outs:
+                continue
+            n += 1
+            chk.analysed(f)
+            from .c01 import _conjuncts
+            conj = _conjuncts(st.select.where)
+            extra_ = [c for c in conj if not re.match(r'^(\w+ \. )?%s = (\?\d*|-?\d+)$' % group, c)]
+            inst = '%s: the chain rows of %s are fetched by %s alone' % (
+                (f.qualname or '').replace('djinterop::engine::', ''), st.table, group)
+            if not conj:
+                chk.violation(rid, '%s|chain listing without group key' % (f.qualname or '').replace('djinterop::engine::', ''),
+                              locstr(s_.node), inst + ': not so - no restriction at all (rows of other chains are mixed in)')
+            elif extra_:
+                chk.violation(rid, '%s|chain listing filtered by %s' % (
+                    (f.qualname or '').replace('djinterop::engine::', ''), '; '.join(extra_)), locstr(s_.node),
+                    '%s: not so - the statement also demands %s: a row that fails it is a missing link, the walk from '
+                    'the tail stops there and every row in front of it (and the row itself) is absent from the '
+                    'listing' % (inst, ' and '.join(extra_)))
+            else:
+                chk.ok(rid, inst, locstr(s_.node))
+    if n < 3:
+        raise AnalysisBroken('chain-listing rule: fewer than three chain listings found (%d): child ids, root ids, '
+                             'entries of a list' % n)
+    return n
